@@ -27,8 +27,10 @@ import seqcheck
 
 SPEC = {
     "prop": "C13",
-    "lean_targets": ["InfernoVerif.Props.C13"],
-    "prop_files": ["InfernoVerif/Props/C13.lean"],
+    "lean_targets": ["InfernoVerif.Props.C13", "InfernoVerif.Props.C13Glue", "InfernoVerif.Gen.Dispatch"],
+    "translate": ["Infra"],
+    "driver_targets": ["InfernoVerif.Model.Record", "InfernoVerif.Drv.Proto", "InfernoVerif.Gen.Dispatch"],
+    "prop_files": ["InfernoVerif/Props/C13.lean", "InfernoVerif/Props/C13Glue.lean"],
     "lemma_files": ["InfernoVerif/Lemmas/Ring.lean", "InfernoVerif/Lemmas/Record.lean"],
     "model_files": ["InfernoVerif/Model/Ring.lean", "InfernoVerif/Model/RingOps.lean",
                     "InfernoVerif/Model/Shaped.lean", "InfernoVerif/Model/Record.lean"],
@@ -560,6 +562,8 @@ def key_of(case, d):
 
 def explore(ctx) -> Exploration:
     ex = Exploration()
+    import transval
+    transval.validate(ctx, SPEC["translate"], ex, per_fn=60)   # generated pointer / size arithmetic vs the Python originals
     rng = ctx.rng
     thorough = ctx.tier == "thorough" or ctx.intensify
     STATS.clear()
